@@ -81,6 +81,12 @@ class Ctx:
             self.solver = z3.Solver()
             self.solver.set('rlimit', DECIDE_RLIMIT)
             self.solver.set('timeout', 1500)     # feasibility pruning only: unknown => both branches are explored
+            # the library's global switch settings.PRINT_EVENTS (default True) is an INPUT: both values are explored
+            try:
+                from qstrader import settings as _qs
+                _qs.PRINT_EVENTS = SymBool(self._const('settings.PRINT_EVENTS', B))
+            except Exception:
+                pass
 
     def assume(self, c):
         if self.mode == 'conc':
